@@ -409,6 +409,7 @@ func genTables(a *An) {
 	fmt.Println("}")
 	genGates(a)
 	genEraseSites(a)
+	genConstArgs(a)
 }
 
 // ---- events ---------------------------------------------------------------------------------------------------
